@@ -297,9 +297,13 @@ class ExponentialCoalescent(Distribution):
         node_mask_sorted = torch.gather(node_mask, -1, indices)
         lineage_count = node_mask_sorted.cumsum(-1)[..., :-1]
         # TODO: deal with growth==0
-        height_growth_exp = torch.exp(heights_sorted * self.growth)
-        integral = (height_growth_exp[..., 1:] - height_growth_exp[..., :-1]) / (
-            self.theta * self.growth
+        # exp(g t0) expm1(g (t1 - t0)) instead of exp(g t1) - exp(g t0), which
+        # loses all its digits for a growth rate next to zero
+        durations = heights_sorted[..., 1:] - heights_sorted[..., :-1]
+        integral = (
+            torch.exp(heights_sorted[..., :-1] * self.growth)
+            * torch.expm1(durations * self.growth)
+            / (self.theta * self.growth)
         )
         lchoose2 = lineage_count * (lineage_count - 1) / 2.0
         # log(theta * exp(-growth * t)) without going through exp
